@@ -65,6 +65,11 @@ def R(o, force=False):
     return ['rel', o, force]
 
 
+def DEL(o):
+    """The calling thread drops the object (-> __del__ -> release(force=True)); model: CRel o true."""
+    return ['del', o]
+
+
 def round_(o, fl, shape='simple', fl2='blk'):
     if shape == 'nested':
         return [A(o, fl, 3), A(o, fl2, 1), R(o), R(o)]
@@ -84,9 +89,15 @@ def run_procs(case):
         lock, marker = os.path.join(d, 'x.lock'), os.path.join(d, 'marker')
         env = dict(os.environ, PYTHONPATH=C.REPO)
         script = os.path.join(os.path.dirname(os.path.dirname(os.path.abspath(__file__))), 'flock_proc.py')
-        ps = [subprocess.Popen([C.PY, script, 'contend', lock, marker, str(case['rounds']), str(i % 6)],
-                               env=env, stdout=subprocess.PIPE, stderr=subprocess.DEVNULL, text=True)
-              for i in range(case['nproc'])]
+        if case.get('mode') == 'forkhold':
+            # one holder process that forks a do-nothing child while holding (descriptor inherited)
+            ps = [subprocess.Popen([C.PY, script, 'forkhold', lock, str(case['rounds'])],
+                                   env=env, stdout=subprocess.PIPE, stderr=subprocess.DEVNULL, text=True)
+                  for i in range(case['nproc'])]
+        else:
+            ps = [subprocess.Popen([C.PY, script, 'contend', lock, marker, str(case['rounds']), str(i % 6)],
+                                   env=env, stdout=subprocess.PIPE, stderr=subprocess.DEVNULL, text=True)
+                  for i in range(case['nproc'])]
         tot = dict(completed=0, collisions=0, errors=0)
         for p in ps:
             try:
@@ -151,6 +162,20 @@ def corpus():
            [[A(1, 'with', 2), A(2, 'vlong', 0), R(1)], round_(0, 'ctxtimed'), round_(0, 'long')],
            [0] * 4 + [1] * 3 + [2, 0, 1, 0, 2, 1, 0, 0, 0, 1, 1]),
         dict(kind='procs', nproc=3, rounds=10),
+        # a release of an UNHELD lock is a no-op: t2 calls release() on object 0 while t1 sits in acquire() on it
+        # (thread lock taken, counter 1, waiting for the OS lock held through object 1); t1 must stay the only owner
+        mk([[False, -1], [False, -1]], [round_(1, 'blk'), round_(0, 'blk'), [R(0), A(0, 'nb', 1), R(0)]],
+           [0, 0, 0, 0, 1, 1, 1, 2, 2, 2, 2, 0, 0, 0, 0, 1, 2, 2, 2, 2, 2, 1, 1, 1, 1]),
+        mk([[True, -1], [False, -1]], [round_(1, 'with'), round_(0, 'timed'), [R(0), R(0, True), A(0, 'nb', 1), R(0)]],
+           [0, 0, 0, 0, 1, 1, 1, 1, 1, 2, 2, 2, 2, 0, 0, 0, 0] + [1] * 8 + [2] * 8),
+        # the holder drops its lock object (__del__ -> forced release) while a contender is parked in flock on the
+        # other object; then re-acquires through a fresh object: the lock FILE must stay the same inode
+        mk([[False, -1], [False, -1]], [[A(0, 'blk', 3), DEL(0), A(0, 'nb', 1), R(0)], round_(1, 'blk')],
+           [0, 0, 0, 0, 1, 1, 1, 0, 0, 0, 0, 1, 0, 0, 0, 0, 1, 1, 1, 1, 0, 0, 0, 0]),
+        mk([[True, -1], [False, -1]], [[A(0, 'with', 4), A(0, 'nb', 0), DEL(0), A(0, 'blk', 1), R(0)], round_(1, 'timed')],
+           [0, 0, 0, 0, 0, 0, 1, 1, 1, 1, 1, 0, 0, 0, 0, 0] + [1] * 10 + [0] * 10),
+        # a holder that forks a do-nothing child keeps the lock (the child only inherits the descriptor)
+        dict(kind='procs', mode='forkhold', nproc=1, rounds=5),
     ]
 
 
@@ -180,6 +205,14 @@ def gen_exhaustive(tier, seed):
             for same in (True, False):
                 cfg = [[True, -1]] if same else [[True, -1], [False, -1]]
                 jobs.append((mk(cfg, [round_(0, 'blk', shape, 'nb'), round_(0 if same else 1, f1)]), pb, cap))
+    # a third thread releasing the (for it) unheld object 0 while thread 1 is in the middle of acquiring it
+    # behind object 1; and a holder dropping its object (__del__) against a parked / polling contender
+    for f1 in (['blk', 'timed'] if tier == 'quick' else ['blk', 'timed', 'with', 'ctx', 'long']):
+        for reent in (False, True):
+            jobs.append((mk([[reent, -1], [False, -1]],
+                            [round_(1, 'blk'), round_(0, f1), [R(0), A(0, 'nb', 1), R(0)]]), 1 if tier == 'quick' else 2, cap))
+            jobs.append((mk([[reent, -1], [False, -1]],
+                            [[A(0, 'blk', 3), DEL(0), A(0, 'nb', 1), R(0)], round_(1, f1)]), pb, cap))
     with mp.get_context('fork').Pool(C.NPROC) as pool:
         out = [c for cs in pool.map(_explore, jobs, chunksize=1) for c in cs]
     if tier == 'quick':
@@ -189,6 +222,7 @@ def gen_exhaustive(tier, seed):
             step = len(out) / budget
             out = [out[int(i * step)] for i in range(budget)]
     out.append(dict(kind='procs', nproc=4, rounds=20))
+    out.append(dict(kind='procs', mode='forkhold', nproc=1, rounds=10))
     if tier != 'quick':
         out.append(dict(kind='procs', nproc=16, rounds=50))
         out.append(dict(kind='procs', nproc=8, rounds=50))
@@ -208,8 +242,25 @@ def _rand_case(rnd, tier):
             shape = 'simple'
             if cfg[o][0] and rnd.random() < 0.35:
                 shape = rnd.choice(['nested', 'force'])
-            prog += round_(o, fl, shape, rnd.choice(['blk', 'nb', 'with']))
+            r = rnd.random()
+            if r < 0.08:
+                prog += [R(o)]                                   # release of a lock this thread does not hold
+            elif r < 0.16 and fl in ('blk', 'nb', 'timed', 'with', 't0', 'long', 'vlong') and shape == 'simple':
+                prog += [A(o, fl, 1), DEL(o)]                     # the holder drops the object instead of releasing
+            else:
+                prog += round_(o, fl, shape, rnd.choice(['blk', 'nb', 'with']))
         progs.append(prog)
+    # an object can only be garbage-collected (__del__) when no other thread can be executing one of its
+    # methods: keep DEL only on objects that a single thread uses, otherwise release normally
+    # (a suspended acquire_ctx() generator also keeps its object alive, so no DEL on objects entered that way)
+    users, ctx_used = {}, set()
+    for t, prog in enumerate(progs):
+        for c in prog:
+            users.setdefault(c[1], set()).add(t)
+            if c[0] == 'acq' and c[2] == 'ctx':
+                ctx_used.add(c[1])
+    progs = [[(R(c[1]) if (c[0] == 'del' and (len(users[c[1]]) > 1 or c[1] in ctx_used)) else c) for c in prog]
+             for prog in progs]
     sched = [rnd.randrange(nT) for _ in range(rnd.randint(10, 60))]
     # longer runs of one thread make deep windows reachable
     if rnd.random() < 0.5:
